@@ -59,9 +59,9 @@ def make_case(seed, i, force_end=None):
         if inside.chance(0.15):
             # an output directory inside the package directory: the tool's own writes produce events in watched directories
             pkg.targets[t] = dict(pkg.targets[t], **{M.TARGET_KEYS[t]: "generated/" + t})
-    has_versions = rng.chance(0.25)
+    has_versions = rng.chance(0.35)
     if has_versions:
-        pkg = E.with_versions(pkg, rng.fork("v"), rng.randint(1, 2), partial=rng.chance(0.5), layout=rng.fork("vlayout").choice(["siblings", "archive"]))
+        pkg = E.with_versions(pkg, rng.fork("v"), rng.randint(1, 3), partial=rng.chance(0.5), layout=rng.fork("vlayout").choice(["siblings", "archive"]))
     # layout: yardl reads model files in sub-directories of a package directory too (ParseYamlInDir walks the tree),
     # so a share of the packages keep one model file of the main or of a referenced package below a sub-directory
     lr = rng.fork("layout")
@@ -87,7 +87,8 @@ def make_case(seed, i, force_end=None):
         if e > 0 and r.fork("pause").chance(0.2):
             edits.append({"kind": "pause"})      # the person at the editor waits until the tool has gone quiet
         kind = r.weighted([("model", 5), ("import_model", 3 if state.imports else 0), ("manifest", 4), ("break_repair", 2), ("touch", 1),
-                           ("import_manifest_break_repair", 2 if state.imports else 0), ("subdir", 1.5), ("replace_import_dir", 1.5 if state.imports else 0)])
+                           ("import_manifest_break_repair", 2 if state.imports else 0), ("subdir", 1.5), ("replace_import_dir", 1.5 if state.imports else 0),
+                           ("version_model", 4 if state.versions else 0)])
         if kind == "subdir":
             # directory life cycle inside the package directory: a new sub-directory with a model file (mkdir, then the
             # file), a later save of that file, or the removal of the whole sub-directory again
@@ -186,6 +187,22 @@ def make_case(seed, i, force_end=None):
                     l.append(d)
                     break
             log.append("import %s: %s" % (imp.dirname, "; ".join(l)))
+        elif kind == "version_model":
+            # a save in the directory of a previous version (any of them), or - where every version is a snapshot of the whole
+            # tree - in that version's own copy of an imported package: the compatibility code generated for it changes
+            state = copy.deepcopy(state)
+            label, old = r.choice(state.versions)
+            tgt = old
+            copies = [q for q in old.all_packages()[:-1] if q.dirname.startswith("archive/")]
+            if copies and r.chance(0.5):
+                tgt = r.choice(copies)
+            l = []
+            for _ in range(4):
+                d = E.apply_edit(tgt, r, r.choice(["add_field", "add_optional_field", "reorder_fields", "add_field"]))
+                if d:
+                    l.append(d)
+                    break
+            log.append("version %s (%s): %s" % (label, tgt.dirname, "; ".join(l)))
         elif kind == "manifest":
             state = copy.deepcopy(state)
             opts = ["move_output"]
